@@ -108,6 +108,30 @@ func batchOps(fn *ssa.Function) map[string]map[string][]ssa.Instruction {
 	return out
 }
 
+// sameBatchOps: all Put/Delete operations of the given kinds go to one storage batch value.
+func sameBatchOps(ops map[string]map[string][]ssa.Instruction, needKinds []string) (bool, string) {
+	var batch, batchRaw ssa.Value
+	for _, k := range needKinds {
+		found := false
+		for _, op := range []string{"Put", "Delete"} {
+			for _, in := range ops[k][op] {
+				found = true
+				recv := core.Receiver(in.(ssa.CallInstruction))
+				if batch == nil {
+					batch = core.Strip(recv)
+					batchRaw = recv
+				} else if core.Strip(recv) != batch && !sameValue(recv, batch) && !(core.VarIdentity(recv) != nil && core.VarIdentity(recv) == core.VarIdentity(batchRaw)) {
+					return false, k + " goes to a different batch"
+				}
+			}
+		}
+		if !found {
+			return false, "no " + k + " operation"
+		}
+	}
+	return true, ""
+}
+
 // C12: rolling back to a retained height restores exactly that height's state.
 func C12(c *Ctx) {
 	r := c.R
@@ -234,29 +258,7 @@ func C12(c *Ctx) {
 			}
 		}
 		// journal record in the same batch as the data and max marker, before Commit()
-		sameBatch := func(fn *ssa.Function, ops map[string]map[string][]ssa.Instruction, needKinds []string) (bool, string) {
-			var batch, batchRaw ssa.Value
-			for _, k := range needKinds {
-				found := false
-				for _, op := range []string{"Put", "Delete"} {
-					for _, in := range ops[k][op] {
-						found = true
-						recv := core.Receiver(in.(ssa.CallInstruction))
-						if batch == nil {
-							batch = core.Strip(recv)
-							batchRaw = recv
-						} else if core.Strip(recv) != batch && !sameValue(recv, batch) && !(core.VarIdentity(recv) != nil && core.VarIdentity(recv) == core.VarIdentity(batchRaw)) {
-							return false, k + " goes to a different batch"
-						}
-					}
-				}
-				if !found {
-					return false, "no " + k + " operation"
-				}
-			}
-			return true, ""
-		}
-		ok, why := sameBatch(commit, cw, []string{"journal", "journal-max", "account", "state"})
+		ok, why := sameBatchOps(cw, []string{"journal", "journal-max", "account", "state"})
 		r.Check(ok, "R12.3", "Commit: journal record, max marker and data in one batch", c.P.Pos(commit.Pos()), "all put into the same storage batch", "the journal of a height is not committed atomically with that height's data: "+why)
 		// rollback loop: per-iteration batch
 		rops := batchOps(rs)
